@@ -329,6 +329,22 @@ func flowMain(args mon.Args, prop, proto string) {
 				oo.MaxFields = 40
 			}
 			c := wire.GenFlowCase(g, proto, oo)
+			if g.Chance(1, 5) {
+				// a set with a reserved id (to be skipped by its declared length) somewhere in one of the messages:
+				// header fields and records of the message stay what they are
+				i := g.Intn(len(c.Dgrams))
+				lo := 4
+				if proto == "nf9" {
+					lo = 2
+				}
+				u := wire.Set{Kind: wire.SetRaw, SetID: uint16(g.Range(lo, 255)), RawBody: g.Bytes(4 * g.Intn(6))}
+				at := g.Intn(len(c.SetsPer[i]) + 1)
+				sets := append(append(append([]wire.Set{}, c.SetsPer[i][:at]...), u), c.SetsPer[i][at:]...)
+				if b, eh := wire.EncodeFlow(proto, c.HdrRaw[i], sets); len(b) < 65000 {
+					c.Dgrams[i], c.Hdr[i] = b, eh
+					run.Add("histories_with_a_reserved_set", 1)
+				}
+			}
 			fr := toReplay(c, elements)
 			if len(c.Dgrams) > 1 && g.Chance(1, 4) {
 				fr.Restart = 1 + g.Intn(len(c.Dgrams)-1)
@@ -387,7 +403,7 @@ func flowMain(args mon.Args, prop, proto string) {
 		}
 	}
 	run.Set("types_swept", typesSeen)
-	run.SetRule("model → independent encoder (wire/) → real Decode on a fresh cache → field-by-field comparison (id, enterprise number, Go type and value) with the snapshot's type table. Sweep: every element × every legal fixed length (1..size; 9 lengths and the varlen marker for string/octetArray) × boundary contents, complete. Random: exporter histories with 1-3 templates (plain/options, reduced sizes, varlen 1- and 3-octet prefixes, enterprise elements and IANA-space elements that only the installed file defines, once the elements file is installed), 1-4 data sets, 1-40 records, legal padding; a third of the sweep pairs and a quarter of the histories save the cache and load it back (Dump + GetCache, a collector restart) between two datagrams; distinct = structural descriptor (field types/lengths/options split/record count/padding), non-trivial = at least one data record compared")
+	run.SetRule("model → independent encoder (wire/) → real Decode on a fresh cache → field-by-field comparison (id, enterprise number, Go type and value) with the snapshot's type table. Sweep: every element × every legal fixed length (1..size; 9 lengths and the varlen marker for string/octetArray) × boundary contents, complete. Random: exporter histories with 1-3 templates (plain/options, reduced sizes, varlen 1- and 3-octet prefixes, enterprise elements and IANA-space elements that only the installed file defines, once the elements file is installed), 1-4 data sets, 1-40 records, legal padding, in a fifth of the histories a set with a reserved id at a random position; a third of the sweep pairs and a quarter of the histories save the cache and load it back (Dump + GetCache, a collector restart) between two datagrams; distinct = structural descriptor (field types/lengths/options split/record count/padding), non-trivial = at least one data record compared")
 	run.Assume("well-formedness contract of DESIGN.md Appendix A (element id 0, template withdrawal, RFC 6313 list internals not generated)")
 	run.Assume("fixtures/iana_ipfix_snapshot.tsv is the reference type table (C20 ties it to both in-repo tables)")
 	run.Finish()
